@@ -258,9 +258,11 @@ def body_general(case):
 # coordinate-major / function-major (scalar function lists)
 # ---------------------------------------------------------------------------------------------------------
 
-SCALAR = ['one', 'id', 'sq', 'cube', 'sin', 'cos', 'exp']
+SCALAR = ['one', 'id', 'sq', 'cube', 'sin', 'cos', 'exp', 'relu', 'clip']
+# 'relu' / 'clip' are ordinary python functions with a branch that returns an int literal: the return TYPE depends on the argument
 SCALAR_F = {'one': lambda t: 1.0, 'id': lambda t: t, 'sq': lambda t: t ** 2, 'cube': lambda t: t ** 3, 'sin': lambda t: np.sin(t),
-            'cos': lambda t: np.cos(t), 'exp': lambda t: np.exp(0.5 * t)}
+            'cos': lambda t: np.cos(t), 'exp': lambda t: np.exp(0.5 * t), 'relu': lambda t: t if t > 0 else 0,
+            'clip': lambda t: 1 if t > 0.5 else (t if t > -0.5 else -1)}
 
 
 @st.composite
